@@ -208,6 +208,15 @@ def run_el_class(chk, cls, histories, batch=4000):
 def run_sim_class(chk, cls, scs, mons, variant=None, batch=250, tag=None):
     """Correspondence + monitors on a list of scenarios.  `mons`: functions (sc, trace) -> [str]."""
     tag = tag or chk.prop
+    for k, sc in enumerate(scs):
+        # every third scenario is run by a protocol that keeps ONE command object per kind and re-fills it
+        # for every request (legal use of the API; the simulator must have taken what it needs at hand-over)
+        if "reuse_commands" not in sc and k % 3 == 1:
+            sc["reuse_commands"] = True
+        # the harness' own default switches execution logging off; every fourth scenario runs under the
+        # library's default configuration (execution_logging=True) instead
+        if variant is None and "variant" not in sc and k % 4 == 2:
+            sc["variant"] = {"execution_logging": True}
     for i in range(0, len(scs), batch):
         part = scs[i:i + batch]
         for r in corr.corr_sims(part, variant=variant):
@@ -229,6 +238,19 @@ def run_sim_class(chk, cls, scs, mons, variant=None, batch=250, tag=None):
                 chk.extra["monitor_rejected_model_trace"] = chk.extra.get("monitor_rejected_model_trace", 0) + 1
                 viol = []
                 # fall through: the traces differ, so the correspondence break is reported
+            crash = next((l for l in r["impl"] if l.startswith("impl-exception")), None)
+            if not viol and crash is not None and not any(l.startswith("impl-exception") for l in r["model"]):
+                # the implementation raised where the proved model completes the scenario: whatever the property
+                # promises for this scenario did not happen -- a concrete failing input
+                small = _shrink_diff(sc, variant) if len(chk.violations) < 2 else sc
+                rr = corr.corr_sims([small], variant=variant)[0]
+                c2 = next((l for l in rr["impl"] if l.startswith("impl-exception")), None)
+                if c2 is None:
+                    small, rr, c2 = sc, r, crash
+                chk.violation(cls, small, ["%s: the implementation raised an unexpected exception on this scenario (%s); the model "
+                                           "completes it" % (tag, c2[len("impl-exception "):])],
+                              extra={"impl": rr["impl"][:200], "model": rr["model"][:200]})
+                continue
             if viol:
                 small = _shrink_sim(sc, mons, tag, variant) if len(chk.violations) < 2 else sc
                 rr = corr.corr_sims([small], variant=variant)[0]
@@ -333,6 +355,33 @@ def gen_timer_storm(R):
             "mob": (1.0, 1.0, (0.0, 0.0, 0.0)), "asserts": [], "seed": 1, "dur": None, "maxit": None, "drv": ("run",), "script": script}
 
 
+def gen_decimal_ties(R):
+    """requests for one and the same instant T made at different moments t (decimal, not dyadic, values:
+    t + (T - t) != T in doubles for some of them), by timers and by delayed messages"""
+    nn = R.randint(1, 2)
+    script = [[] for _ in range(nn)]
+    grid = [round(0.1 * k, 1) for k in range(1, 60)]
+    for me in range(nn):
+        T = R.choice(grid[8:])
+        ts = sorted(R.sample([g for g in grid if g < T], R.randint(1, 3)))
+        acts0 = [("settimer", 1, "abs", T)] + [("settimer", 10 + j, "abs", t) for j, t in enumerate(ts)]
+        R.shuffle(acts0)
+        script[me].append({"trig": ("init",), "nth": None, "acts": acts0})
+        for j, t in enumerate(ts):
+            acts = [("settimer", 2 + j, "abs", T)]
+            if nn > 1 and R.random() < 0.4:
+                acts.append(("send", 40 + j, 1 - me))
+            script[me].append({"trig": ("timer", 10 + j), "nth": None, "acts": acts})
+    known = [(0.2, 0.9), (0.4, 1.7), (0.8, 2.9), (1.3, 3.4), (1.1, 5.2)]
+    if R.random() < 0.5:
+        t, T = R.choice(known)
+        script[0] = [{"trig": ("init",), "nth": None, "acts": [("settimer", 1, "abs", T), ("settimer", 10, "abs", t)]},
+                     {"trig": ("timer", 10), "nth": None, "acts": [("settimer", 2, "abs", T)]}]
+    return {"handlers": R.sample(["T", "C"], 2), "nodes": [{"pos": (float(i), 0.0, 0.0), "ty": 0} for i in range(nn)],
+            "med": (100.0, R.choice([0.0, 0.1, 0.3]), 0.0), "mob": (1.0, 1.0, (0.0, 0.0, 0.0)), "asserts": [], "seed": 1,
+            "dur": None, "maxit": None, "drv": ("run",), "script": script}
+
+
 def check_C01(chk, R, S):
     chk.rule = ("event-loop API histories (exhaustive over {schedule at clock-1/+0/+1/+2, pop, peek, clear, len} up to "
                 "length %d, then random to length 60) and whole simulations from the structured-random script generator; "
@@ -345,6 +394,8 @@ def check_C01(chk, R, S):
     run_sim_class(chk, "sim-ties", gen_many(R, S["sims"] // 2, {"p_timer": 1.0, "p_comm": 1.0, "delays": [0.0, 0.5, 1.0],
                                                               "max_rules": 5, "fails": [0.0]}), [M.mon_C01])
     run_sim_class(chk, "sim-timer-storm", [gen_timer_storm(R) for _ in range(max(12, S["sims"] // 20))], [M.mon_C01])
+    run_sim_class(chk, "sim-decimal-ties", [gen_decimal_ties(R) for _ in range(max(60, S["sims"] // 5))], [M.mon_C01])
+    run_sim_class(chk, "sim-external-requests", [gen_drive_scenario(R, ("settimer", "send", "bcast", "cancel")) for _ in range(max(60, S["sims"] // 5))], [M.mon_C01])
     chk.exhaustive = True
 
 
@@ -372,6 +423,7 @@ def check_C03(chk, R, S):
     run_el_class(chk, "el-long-150000", [el_long(R, 150000) for _ in range(6 if chk.tier == "quick" else 16)], batch=2)
     run_sim_class(chk, "sim-bursts", [gen_burst(R) for _ in range(S["sims"])], [M.mon_C03])
     run_sim_class(chk, "sim-timer-rearm", [gen_rearm(R) for _ in range(S["sims"])], [M.mon_C03])
+    run_sim_class(chk, "sim-decimal-ties", [gen_decimal_ties(R) for _ in range(max(60, S["sims"] // 5))], [M.mon_C03])
     chk.exhaustive = True
 
 
@@ -589,6 +641,58 @@ def check_C06(chk, R, S):
         subproc_matrix.run(chk, scs[:25], R)
 
 
+def gen_drive_scenario(R, kinds=("settimer", "settimer", "cancel", "send")):
+    """manual driving with requests made from OUTSIDE any callback: before the first step (right after build())
+    and between steps, through the node's provider, next to the requests the callbacks make themselves"""
+    nn = R.randint(1, 3)
+    times = [0.5, 1.0, 1.5, 2.0, 3.0]
+    msg = itertools.count(100)
+
+    def ext_acts(me):
+        out = []
+        for _ in range(R.randint(1, 3)):
+            k = R.choice(kinds)
+            if k == "settimer":
+                out.append(("settimer", R.randrange(3), R.choice(times + [0.0, 0.25])))
+            elif k == "cancel":
+                out.append(("cancel", R.randrange(3)))
+            elif k == "send" and nn > 1:
+                out.append(("send", next(msg), R.choice([i for i in range(nn) if i != me])))
+            elif k == "goto":
+                out.append(("goto",) + gen_sim.gen_pos(R, 8))
+            elif k == "speed":
+                out.append(("speed", R.choice([0.5, 2.0, 5.0])))
+            else:
+                out.append(("bcast", next(msg)))
+        return out
+    script = []
+    for me in range(nn):
+        rules = []
+        if R.random() < 0.7:
+            rules.append({"trig": ("init",), "nth": None, "acts": [("settimer", R.randrange(3), "abs", R.choice(times)) for _ in range(R.randint(1, 3))]})
+        if R.random() < 0.6:
+            rules.append({"trig": ("timer", None), "nth": R.randrange(3), "acts": [R.choice([("cancel", R.randrange(3)), ("settimer", R.randrange(3), "rel", 0.5)])]})
+        if R.random() < 0.4:
+            rules.append({"trig": ("packet", None), "nth": None, "acts": [("settimer", R.randrange(3), "rel", 0.25)]})
+        script.append(rules)
+    ops = []
+    for _ in range(R.choice([0, 1, 1, 2])):                       # before the first step
+        me = R.randrange(nn)
+        ops.append(("ext", me, ext_acts(me)))
+    for _ in range(R.randint(4, 30)):
+        if R.random() < 0.75:
+            ops.append(("step",))
+        else:
+            me = R.randrange(nn)
+            ops.append(("ext", me, ext_acts(me)))
+    ops += [("step",)] * R.choice([0, 5, 40, 40])
+    hs = ["T", "C"] + (["M"] if "goto" in kinds else [])
+    R.shuffle(hs)
+    return {"handlers": hs, "nodes": [{"pos": (float(i), 0.0, 0.0), "ty": 0} for i in range(nn)],
+            "med": (100.0, R.choice([0.0, 0.5]), 0.0), "mob": (0.5, 2.0, (0.0, 0.0, 0.0)), "asserts": [], "seed": 1,
+            "dur": R.choice([None, 2.5]), "maxit": None, "drv": ("drive", ops), "script": script}
+
+
 def check_C07(chk, R, S):
     chk.rule = ("1-4 nodes x 3 timer names; set/cancel from init, timer, packet and telemetry callbacks, re-entrant "
                 "same-name cancel/set inside the firing handler, ties, past timers; the abstract timer table is replayed "
@@ -604,6 +708,8 @@ def check_C07(chk, R, S):
         sc["dur"], sc["maxit"] = None, None
     run_sim_class(chk, "sim-timers-exhaustion", scs, [M.mon_C07])
     run_sim_class(chk, "sim-timer-storm", [gen_timer_storm(R) for _ in range(max(12, S["sims"] // 20))], [M.mon_C07])
+    run_sim_class(chk, "sim-decimal-ties", [gen_decimal_ties(R) for _ in range(max(60, S["sims"] // 5))], [M.mon_C07])
+    run_sim_class(chk, "sim-external-requests", [gen_drive_scenario(R) for _ in range(max(100, S["sims"] // 2))], [M.mon_C07])
 
 
 def check_C08(chk, R, S):
@@ -622,6 +728,7 @@ def check_C08(chk, R, S):
     for sc in bursts:
         sc["reuse_commands"] = True
     run_sim_class(chk, "sim-bursts-reused-commands", bursts, [M.mon_C08])
+    run_sim_class(chk, "sim-external-requests", [gen_drive_scenario(R, ("send", "bcast", "send", "settimer")) for _ in range(max(60, S["sims"] // 5))], [M.mon_C08])
     scs = gen_many(R, S["sims"] // 2, dict(prof, p_bounded=1.0, p_mob=0.0, p_steps=0.0))
     for sc in scs:
         sc["dur"], sc["maxit"] = None, None
@@ -654,6 +761,13 @@ def gen_range_scenario(R, lossy=False):
                 rng = d * sc2
         else:
             nodes.append({"pos": gen_sim.gen_pos(R, 12), "ty": 0})
+    if R.random() < 0.25:
+        # nodes stacked on one spot (distance exactly 0) and a range of exactly 0: the boundary is included
+        for i in range(1, nn):
+            if R.random() < 0.6:
+                nodes[i] = {"pos": nodes[R.randrange(i)]["pos"], "ty": 0}
+        if R.random() < 0.6:
+            rng = 0.0
     delay = R.choice([0.0, 0.5, 1.0, 0.25])
     script = []
     msg = itertools.count(0)
@@ -846,6 +960,7 @@ def check_C11(chk, R, S):
                 "positions compared bit-exactly with the model and against the metric clauses")
     run_corpus(chk, [M.mon_C11])
     run_sim_class(chk, "sim-motion", [gen_motion(R) for _ in range(S["sims"])], [M.mon_C11])
+    run_sim_class(chk, "sim-external-requests", [gen_drive_scenario(R, ("goto", "goto", "speed", "settimer")) for _ in range(max(60, S["sims"] // 5))], [M.mon_C11])
 
 
 def check_C12(chk, R, S):
@@ -895,12 +1010,50 @@ def gen_pair_C13(R):
     return with_, without, x, mode
 
 
+def gen_pair_C13_coincide(R):
+    """the silent node's requests COINCIDE with the others': same timer names, same due instants, set before, between
+    and after the others' own same-instant requests (timers of other names, messages arriving at that instant)"""
+    nn = R.randint(2, 4)
+    x = R.choice([0, 0, R.randrange(nn)])
+    T = R.choice([1.0, 2.0, 5.0, 0.5])
+    delay = R.choice([0.0, T, T])
+    script = []
+    msg = itertools.count(0)
+    for me in range(nn):
+        acts = []
+        for _ in range(R.randint(2, 5)):
+            k = R.random()
+            if k < 0.55:
+                acts.append(("settimer", R.randrange(3), "abs", R.choice([T, T, T + 1.0])))
+            elif k < 0.85 and nn > 1:
+                acts.append(("send", next(msg), R.choice([i for i in range(nn) if i != me])))
+            else:
+                acts.append(("bcast", next(msg)))
+        rules = [{"trig": ("init",), "nth": None, "acts": acts}]
+        if R.random() < 0.6:
+            rules.append({"trig": ("packet", None), "nth": R.randrange(2), "acts": [("settimer", R.randrange(3), "abs", R.choice([T, T + 1.0]))]})
+        if R.random() < 0.4:
+            rules.append({"trig": ("timer", None), "nth": 0, "acts": [("settimer", R.randrange(3), "abs", T + 1.0)]})
+        script.append(rules)
+    base = {"handlers": R.sample(["T", "C"], 2), "nodes": [{"pos": (float(i), 0.0, 0.0), "ty": 0} for i in range(nn)],
+            "med": (100.0, delay, 0.0), "mob": (1.0, 1.0, (0.0, 0.0, 0.0)), "asserts": [], "seed": 1, "dur": T + 3.0, "maxit": None,
+            "drv": ("run",), "script": script}
+    xr = [{"trig": ("init",), "nth": None, "acts": [("settimer", k, "abs", R.choice([T, T, T + 1.0])) for k in R.sample([0, 1, 2], R.randint(1, 3))]}]
+    if R.random() < 0.5:
+        xr.append({"trig": ("timer", None), "nth": 0, "acts": [("settimer", R.randrange(3), "abs", T + 1.0), ("cancel", R.randrange(3))]})
+    with_ = copy.deepcopy(base)
+    with_["script"][x] = xr
+    without = copy.deepcopy(base)
+    without["script"][x] = []
+    return with_, without, x, "silent-coinciding"
+
+
 def check_C13(chk, R, S):
     chk.rule = ("paired runs: a scenario with and without a sequence of node-scoped requests (set/cancel timer, goto, "
                 "speed, range) by a silent existing node or by one additional node; the other nodes' callbacks, times, "
                 "payloads, positions and request outcomes must be identical in both runs, and both must equal the model")
     run_corpus(chk, [])
-    pairs = [gen_pair_C13(R) for _ in range(S["sims"] * 3)]
+    pairs = [gen_pair_C13(R) for _ in range(S["sims"] * 3)] + [gen_pair_C13_coincide(R) for _ in range(S["sims"])]
     ra = corr.corr_sims([p[0] for p in pairs])
     rb = corr.corr_sims([p[1] for p in pairs])
     for (w, wo, x, mode), a, b in zip(pairs, ra, rb):
@@ -945,6 +1098,11 @@ def gen_assert_scenario(R):
     sc["handlers"] = hs + ["R0", "A"]
     if R.random() < 0.5:
         sc["script"][0].insert(0, {"trig": ("init",), "nth": None, "acts": [("flag", True)]})
+    if R.random() < 0.5:
+        # finish() changes what the predicates read: nothing is evaluated after it
+        for rules in sc["script"]:
+            if R.random() < 0.7:
+                rules.append({"trig": ("finish",), "nth": None, "acts": [("flag", R.random() < 0.5)]})
     return sc
 
 
@@ -966,6 +1124,12 @@ def check_C18(chk, R, S):
                            "mob": (1.0, 1.0, (0.0, 0.0, 0.0)), "asserts": [kind], "seed": 1, "dur": None, "maxit": None,
                            "drv": ("run",), "script": script})
     for kind in (("EP", 0), ("ESIM", "any"), ("AP", 0), ("ASIM", "all")):
+        for b0, b1, bf in itertools.product([False, True], repeat=3):
+            ex.append({"handlers": ["T", "R0", "A"], "nodes": [{"pos": (0.0, 0.0, 0.0), "ty": 0}], "med": (60.0, 0.0, 0.0),
+                       "mob": (1.0, 1.0, (0.0, 0.0, 0.0)), "asserts": [kind], "seed": 1, "dur": None, "maxit": None, "drv": ("run",),
+                       "script": [[{"trig": ("init",), "nth": None, "acts": [("flag", b0), ("settimer", 0, "abs", 1.0)]},
+                                   {"trig": ("timer", None), "nth": 0, "acts": [("flag", b1)]},
+                                   {"trig": ("finish",), "nth": None, "acts": [("flag", bf)]}]]})
         ex.append({"handlers": ["T", "R0", "A"], "nodes": [{"pos": (0.0, 0.0, 0.0), "ty": 0}], "med": (60.0, 0.0, 0.0),
                    "mob": (1.0, 1.0, (0.0, 0.0, 0.0)), "asserts": [kind], "seed": 1, "dur": None, "maxit": None,
                    "drv": ("run",), "script": [[]]})
@@ -1084,7 +1248,16 @@ def gen_disp_case(R, maxops=10):
             ops.append(("create", i))
         else:
             ops.append(("disp", i, k))
-    return {"ninst": ninst, "beh": beh, "ops": ops}
+    case = {"ninst": ninst, "beh": beh, "ops": ops}
+    if R.random() < 0.5:
+        # protocol instances inside a real simulation, callbacks delivered through the node's encapsulator; the
+        # dispatcher is typically first asked for in the middle of the run (after some callbacks were delivered)
+        case["via"] = "simulator"
+        if R.random() < 0.6:
+            first = [op for op in ops if op[0] != "create"]
+            pre = [("disp", R.randrange(ninst), R.choice(["init", "timer", "packet", "telem"])) for _ in range(R.randint(1, 3))]
+            case["ops"] = pre + [("create", i) for i in range(ninst)] + first
+    return case
 
 
 def disp_exhaustive(maxlen):
